@@ -1,51 +1,133 @@
-// C22 harness: runs client programs of CS / TryCS operations on the real cds::sync::spin_lock under the
-// deterministic scheduler and prints the event log (format: ocaml/conc_main.ml).
-// usage: main <casefile>      cfg = [nlocks; spin fuel (ignored here: the real lock spins until it gets the lock)]
+// C22 harness: runs client programs on the real libcds locks / monitors under the deterministic scheduler and
+// prints the event log (format: ocaml/conc_main.ml) followed by the verdict of an occupancy monitor.
+// usage: main <casefile> [mode]
+//   mode spin (default)  cds::sync::spin_lock                      model LV.Model.SpinLock     ops [1;l] CS, [2;l] TryCS
+//   mode re              cds::sync::reentrant_spin_lock            model LV.Model.Reentrant    op = nest [k1;l1;k2;l2;...]
+//   mode arr             cds::sync::lock_array<spin_lock, mod>     model LV.Model.LocksArray   see run_arr
+//   mode inj             cds::sync::injecting_monitor<spin_lock>   model LV.Model.LocksInj     see run_inj
+//   mode pool            cds::sync::pool_monitor<trivial pool>     model LV.Model.PoolMon      see run_pool
+// cfg[0] = number of locks / cells / nodes; cfg[1] = spin fuel of the model (ignored here: the real locks spin
+// until they get the lock; the generators only produce deadlock-free programs).
 #include <cds/sync/spinlock.h>
+#include <cds/sync/lock_array.h>
+#include <cds/sync/injecting_monitor.h>
+#include <cds/sync/pool_monitor.h>
 #include <cds/algo/atomic.h>
 #include <vcase.h>
 #include <memory>
+#include <cstring>
 
 namespace vs = khizmax_libcds_verif;
 typedef cds::sync::spin_lock<cds::backoff::empty> lock_type;
+typedef cds::sync::reentrant_spin_lock<uint32_t, cds::backoff::empty> re_lock_type;
+
+// ---------------------------------------------------------------------------------------------------------
+// occupancy monitor (the failing-input search): inside[l][t] = nesting depth of thread t in the critical
+// section guarded by l; worst = max number of *distinct* threads inside one section at the same moment.
+struct occupancy {
+    std::vector<std::vector<int>> inside;
+    int worst = 0;
+    int negative = 0;
+    occupancy( size_t nlocks, size_t nthreads ) : inside( nlocks, std::vector<int>( nthreads, 0 )) {}
+    void enter( size_t l, int t )
+    {
+        ++inside[l][t];
+        int k = 0;
+        for ( int d : inside[l] ) if ( d > 0 ) ++k;
+        if ( k > worst ) worst = k;
+    }
+    void leave( size_t l, int t )
+    {
+        if ( --inside[l][t] < 0 ) ++negative;
+    }
+};
+
+// ---------------------------------------------------------------------------------------------------------
+static void run_spin( vcase::Case const& c )
+{
+    size_t nlocks = c.cfg.size() > 0 ? (size_t) c.cfg[0] : 1;
+    // locks first, then data words, in one block: object ids by first appearance do not depend on layout
+    std::unique_ptr<lock_type[]> locks( new lock_type[nlocks] );
+    std::unique_ptr<atomics::atomic<int>[]> data( new atomics::atomic<int>[nlocks] );
+    for ( size_t i = 0; i < nlocks; ++i ) data[i].store( 0, atomics::memory_order_relaxed );
+    occupancy mon( nlocks, c.threads.size());
+
+    vcase::run_workers( c, [&]( int t ) {
+        for ( auto const& op : c.threads[t] ) {
+            long l = op.size() > 1 ? op[1] : 0;
+            bool got = false;
+            if ( op[0] == 1 ) { vcase::emitf( "inv_cs %ld", l ); locks[l].lock(); got = true; }
+            else if ( op[0] == 2 ) { vcase::emitf( "inv_trycs %ld", l ); got = locks[l].try_lock(); }
+            else continue;
+            if ( got ) {
+                vcase::emitf( "enter %ld", l );
+                mon.enter( l, t );
+                (void) data[l].load( atomics::memory_order_relaxed );   // scheduling point inside the section
+                mon.leave( l, t );
+                vcase::emitf( "leave %ld", l );
+                locks[l].unlock();
+                vcase::emitf( "ret 1" );
+            }
+            else
+                vcase::emitf( "ret 0" );
+        }
+    }, nullptr, nullptr, 20000 );
+    vcase::print_log( c );
+    std::printf( "monitor max_inside %d\n", mon.worst );
+}
+
+// ---------------------------------------------------------------------------------------------------------
+// reentrant_spin_lock: an operation is a nest k1 l1 k2 l2 ... (k = 0 lock(), 1 try_lock(), >= 2 try_lock(k))
+static void run_re( vcase::Case const& c )
+{
+    size_t nlocks = c.cfg.size() > 0 ? (size_t) c.cfg[0] : 1;
+    std::unique_ptr<re_lock_type[]> locks( new re_lock_type[nlocks] );
+    std::unique_ptr<atomics::atomic<int>[]> data( new atomics::atomic<int>[nlocks] );
+    for ( size_t i = 0; i < nlocks; ++i ) data[i].store( 0, atomics::memory_order_relaxed );
+    occupancy mon( nlocks, c.threads.size());
+
+    std::function<void( int, vcase::op_t const&, size_t )> nest = [&]( int t, vcase::op_t const& op, size_t i ) {
+        if ( i + 1 >= op.size()) return;
+        long k = op[i], l = op[i + 1];
+        vcase::emitf( "inv %ld %ld", k, l );
+        bool got;
+        if ( k == 0 ) { locks[l].lock(); got = true; }
+        else if ( k == 1 ) got = locks[l].try_lock();
+        else got = locks[l].try_lock( (unsigned int) k );
+        if ( got ) {
+            vcase::emitf( "enter %ld", l );
+            mon.enter( l, t );
+            (void) data[l].load( atomics::memory_order_relaxed );
+            nest( t, op, i + 2 );
+            mon.leave( l, t );
+            vcase::emitf( "leave %ld", l );
+            locks[l].unlock();
+            vcase::emitf( "rel %ld", l );
+        }
+        else
+            vcase::emitf( "fail %ld", l );
+    };
+
+    vcase::run_workers( c, [&]( int t ) {
+        for ( auto const& op : c.threads[t] ) {
+            nest( t, op, 0 );
+            vcase::emitf( "ret" );
+        }
+    }, nullptr, nullptr, 20000 );
+    vcase::print_log( c );
+    std::printf( "monitor max_inside %d\n", mon.worst );
+}
 
 int main( int argc, char** argv )
 {
-    if ( argc < 2 ) { std::fprintf( stderr, "usage: %s casefile\n", argv[0] ); return 2; }
+    if ( argc < 2 ) { std::fprintf( stderr, "usage: %s casefile [spin|re|arr|inj|pool]\n", argv[0] ); return 2; }
+    std::string mode = argc > 2 ? argv[2] : "spin";
     std::ifstream in( argv[1] );
     vcase::Case c;
     while ( vcase::read_case( in, c )) {
-        size_t nlocks = c.cfg.size() > 0 ? (size_t) c.cfg[0] : 1;
-        // locks first, then data words, in one block: object ids by first appearance do not depend on layout
-        std::unique_ptr<lock_type[]> locks( new lock_type[nlocks] );
-        std::unique_ptr<atomics::atomic<int>[]> data( new atomics::atomic<int>[nlocks] );
-        for ( size_t i = 0; i < nlocks; ++i ) data[i].store( 0, atomics::memory_order_relaxed );
-        // monitor: real occupancy of each critical section
-        std::vector<int> inside( nlocks, 0 );
-        int worst = 0;
-
-        vcase::run_workers( c, [&]( int t ) {
-            for ( auto const& op : c.threads[t] ) {
-                long l = op.size() > 1 ? op[1] : 0;
-                bool got = false;
-                if ( op[0] == 1 ) { vcase::emitf( "inv_cs %ld", l ); locks[l].lock(); got = true; }
-                else if ( op[0] == 2 ) { vcase::emitf( "inv_trycs %ld", l ); got = locks[l].try_lock(); }
-                else continue;
-                if ( got ) {
-                    vcase::emitf( "enter %ld", l );
-                    if ( ++inside[l] > worst ) worst = inside[l];
-                    (void) data[l].load( atomics::memory_order_relaxed );   // scheduling point inside the section
-                    --inside[l];
-                    vcase::emitf( "leave %ld", l );
-                    locks[l].unlock();
-                    vcase::emitf( "ret 1" );
-                }
-                else
-                    vcase::emitf( "ret 0" );
-            }
-        }, nullptr, nullptr, 20000 );
-        vcase::print_log( c );
-        std::printf( "monitor max_inside %d\n", worst );
+        if ( mode == "spin" ) run_spin( c );
+        else if ( mode == "re" ) run_re( c );
+        else { std::fprintf( stderr, "unknown mode %s\n", mode.c_str()); return 2; }
     }
     return 0;
 }
